@@ -67,13 +67,13 @@ impl<const N: usize, T: Send + Sync> ConIterOfArray<N, T> {
     unsafe fn split_off_right(&self, left_len: usize) -> Vec<T> {
         debug_assert!(left_len <= N);
 
-        let man_array = &mut *self.array.get();
-        let mut array = ManuallyDrop::take(man_array);
-
-        let mut vec = Vec::from_raw_parts(array.as_mut_ptr(), N, 0);
-        let right_vec = vec.split_off(left_len);
-
-        *man_array = ManuallyDrop::new(array);
+        // moves the elements at positions left_len..N into a new vector;
+        // elements at positions 0..left_len are already moved out and must not be touched
+        let array = &mut *self.array.get();
+        let right_len = N - left_len;
+        let mut right_vec = Vec::with_capacity(right_len);
+        std::ptr::copy_nonoverlapping(array.as_ptr().add(left_len), right_vec.as_mut_ptr(), right_len);
+        right_vec.set_len(right_len);
         right_vec
     }
 }
@@ -187,6 +187,8 @@ impl<const N: usize, T: Send + Sync> ConcurrentIter for ConIterOfArray<N, T> {
     fn into_seq_iter(self) -> Self::SeqIter {
         let current = self.counter().current();
         let remaining_vec = unsafe { self.split_off_right(current.min(N)) };
+        // the remaining elements are moved to `remaining_vec`: `drop` must not move them out again
+        self.counter().store(N + 1);
         remaining_vec.into_iter()
     }
 
